@@ -194,6 +194,12 @@ fn gen_literal_text(t: &mut Tape) -> String {
             // text once per grammar alternative (time exponential in the depth)
             let d = 8 + t.below(70);
             let (open, close) = *t.pick(&[("(", ")"), ("[", "]"), ("f(", ")"), ("(1, ", ")"), ("[(", ")]")]);
+            if t.below(3) == 0 {
+                // the same in a type position
+                let (topen, tclose) = *t.pick(&[("(", ")"), ("Sequence<", ">"), ("(int, ", ")"), ("((", ")->(int))")]);
+                let closed = t.below(d + 1);
+                return format!("fn f(x: {}{}{}) -> int {{ 1 }}", topen.repeat(d), t.pick(&["int", "", "int int", "//"]), tclose.repeat(closed));
+            }
             let inner = *t.pick(&["1 1", "x y", "", "1 +", "a b()", ")", "1"]);
             let closed = t.below(d + 1);
             return format!("fn main() -> int {{ {}{}{} }}", open.repeat(d), inner, close.repeat(closed));
